@@ -44,6 +44,14 @@ Print Assumptions c20_unencodable_rejected.
 Theorem c20_same_rule : key_check_sites = expected_key_check_sites.
 Proof. reflexivity. Qed.
 
+Print Assumptions c20_same_rule.
+
+(* ... and every key-taking command of Client hands the client's own key_prefix to that check (table read from base.py on
+   every run): a command that validated or sent its keys without the prefix would break this *)
+Theorem c20_prefix_everywhere : prefix_sites_ok prefix_arg_sites = true.
+Proof. vm_compute. reflexivity. Qed.
+Print Assumptions c20_prefix_everywhere.
+
 (* non-vacuity: concrete keys on both sides of every clause *)
 Example c20_ex_accept : check_key_helper (DStr [233]) true (DBytes [112; 58]) = Ok (DBytes [112; 58; 195; 169]).
 Proof. vm_compute. reflexivity. Qed.
